@@ -754,6 +754,19 @@ async fn update_mcp_server_for_import(
                 .await??;
 
             if let McpManagerResult::ServerInfo(Some(existing_server)) = check_result {
+                // unique_key is global: the server that has this key may belong to another
+                // namespace. The caller's privilege was checked for the target namespace only,
+                // so an import may update a server of that namespace and no other.
+                let target_namespace = param.namespace.clone().unwrap_or_default();
+                let same_namespace = existing_server.namespace.as_str() == target_namespace
+                    || (crate::namespace::is_default_namespace(&existing_server.namespace)
+                        && crate::namespace::is_default_namespace(&target_namespace));
+                if !same_namespace {
+                    return Err(anyhow::anyhow!(
+                        "McpServer with key {} already exists in another namespace",
+                        server_key
+                    ));
+                }
                 // 服务已存在，执行更新操作
                 log::info!(
                     "Updating existing McpServer with key: {} (id: {})",
